@@ -40,7 +40,7 @@ def run_case(case, rng):
     from mon.probe import read as Rd
 
     n_max = 7 if case.tier == "thorough" else 5
-    gamma = rng.choice([0.5, 0.9, 0.99, 1.0])
+    gamma = rng.choice([0.5, 0.9, 0.99, 1.0] * 3 + [0.0, 1e-200])   # end points: the running discount reaches exactly 0
     fam = "proper" if gamma == 1.0 or rng.random() < 0.5 else "any"
     sp = G.random_spec(rng, fam, n_max=n_max, gamma=gamma, min_states=2, allow_implicit=False,
                        reward_sign="neg" if gamma == 1.0 else None)
@@ -115,6 +115,37 @@ def run_case(case, rng):
                     for ns in want:
                         cmp("reward", d.reward(s, a, ns), fn("reward")(s, a, ns))
         case.call("derived.functions", body, facts=f2)
+
+    # ---- a base MDP that is NOT tabular (plain QuickMDP): the function components and the discount still carry over ----
+    if rng.random() < 0.4:
+        base2 = Bd.quick(sp, explicit=False, tabular=False)
+        fsub = [c for c in COMPONENTS[:5] if rng.random() < 0.4]
+        kw = {c: ov_funcs[c] for c in fsub}
+        f2 = dict(facts, overridden=list(fsub), base="non-tabular QuickMDP")
+        d = case.call("augment(non-tabular base)", augment, base2, facts=f2, **kw)
+        case.count("augment_calls_nontabular_base")
+        if d is not case.FAIL:
+            dr = case.call("derived.discount_rate", lambda: d.discount_rate, facts=f2)
+            if dr is not case.FAIL:
+                case.count("components_compared")
+                case.check(dr == gamma, "augment:discount_rate-differs", f"non-tabular base, overridden={fsub!r}: got {dr!r} want {gamma!r}",
+                           component="discount_rate", **f2)
+
+            def body2():
+                fn = lambda name: ov_funcs[name] if name in fsub else getattr(base2, name)
+                ok = dict(d.initial_state_dist().items()) == dict(fn("initial_state_dist")().items())
+                for s_ in S:
+                    ok = ok and bool(d.is_absorbing(s_)) == bool(fn("is_absorbing")(s_))
+                    acts = tuple(fn("actions")(s_))
+                    ok = ok and tuple(d.actions(s_)) == acts
+                    for a_ in acts:
+                        want = dict(fn("next_state_dist")(s_, a_).items())
+                        ok = ok and dict(d.next_state_dist(s_, a_).items()) == want
+                        for ns_ in want:
+                            ok = ok and d.reward(s_, a_, ns_) == fn("reward")(s_, a_, ns_)
+                case.count("components_compared")
+                case.check(ok, "augment:function-component-differs", f"non-tabular base, overridden={fsub!r}", component="functions", **f2)
+            case.call("derived.functions(non-tabular base)", body2, facts=f2)
 
     # ================= (b) sub-goal option plans with the base discount ================================
     nonabs = [s for s in S if s not in sp.flag]
